@@ -1069,11 +1069,14 @@ def check_case(ctx: runner.Ctx, case):  # noqa: C901, PLR0912, PLR0915
                 viol("bad_call_accepted", (how,), f"args={bargs!r} kwargs={bkwargs!r} returned {r!r}")
 
     # ---- the call
+    counting = [f for f in fns.values() if isinstance(f, Counting)]
+    calls0 = sum(f.calls for f in counting)
     if conv is not None:
         try:
             result = conv(*args, **kwargs)
         except Exception as e:  # noqa: BLE001
             raised = e
+    calls1 = sum(f.calls for f in counting)
     try:
         expected = plan(src_obj, ctxvals)
     except RefUnspec as u:
@@ -1092,6 +1095,11 @@ def check_case(ctx: runner.Ctx, case):  # noqa: C901, PLR0912, PLR0915
     if raised is not None:
         viol("call_raised", (type(raised).__name__, site(raised), risk), describe(raised))
         return
+    calls2 = sum(f.calls for f in counting)
+    if conv is not None and counting and calls1 - calls0 != calls2 - calls1:
+        # link_constant(factory=...): "the result of a function call" per constructed field, not a value made once
+        viol("factory_call_count", (), f"the conversion called the factories {calls1 - calls0} time(s), the field-wise "
+                                       f"construction needs {calls2 - calls1}")
     got_c, exp_c = image(result, ["model", dmi], E), image(expected, ["model", dmi], E)
     if got_c != exp_c:
         where = first_diff(got_c, exp_c)
